@@ -182,6 +182,11 @@ func TestEngineB(t *testing.T) {
 			c.MTimes = map[string]int64{rapid.SampledFrom(files).Draw(rt, "oldpath"): rapid.SampledFrom([]int64{0, -1, 1, -1000000000, 253402300799}).Draw(rt, "oldtime")}
 			e.setTimes(c.MTimes)
 		}
+		if files := filePaths(init); len(files) > 0 && rapid.IntRange(0, 3).Draw(rt, "linkedfile") == 0 {
+			// one or two files of the initial tree are symbolic links to files kept outside the served directory
+			c.Linked = rapid.SliceOfNDistinct(rapid.SampledFrom(files), 1, 2, rapid.ID[string]).Draw(rt, "linked")
+			e.linkify(c.Linked)
+		}
 		mutated := false
 		steps := 0
 		rt.Repeat(map[string]func(*rapid.T){
